@@ -32,6 +32,8 @@ namespace sim { namespace aux {
 		void incoming_packet(packet p) override;
 		std::string label() const override;
 		void reset(sink* s = nullptr);
+		// the sink packets are currently forwarded to, or nullptr
+		sink* target() const { return m_dst; }
 
 	private:
 		sink* m_dst;
